@@ -305,6 +305,7 @@ class Replay:
         self.W = case[0]
         self.streams = case[1]
         self.hist = case[2]
+        self.pred_targets = case[3] if len(case) > 3 else None
         self.text = text
         self.api = api
         self.remax = remax
@@ -324,7 +325,8 @@ class Replay:
         self.exit_sent = None
         self.machinery = None
         self.desync = None
-        self.targets = {}        # dt -> target record (redirections)
+        self.targets = {}        # dt -> [target record, ...] (redirections;
+                                 # a later record replaced the earlier one)
         self.steps_done = 0
         self.open()
 
@@ -386,10 +388,19 @@ class Replay:
             self.loop.run_until_idle()
         except Exception:               # pylint: disable=broad-except
             pass
-        for rec in self.targets.values():
-            d = rec.get('dir')
-            if d:
-                shutil.rmtree(d, ignore_errors=True)
+        for recs in self.targets.values():
+            for rec in recs:
+                d = rec.get('dir')
+                if d:
+                    shutil.rmtree(d, ignore_errors=True)
+                if 'proc2' in rec:
+                    try:
+                        rec['proc2'].close()
+                        rec['sink'].chan.close()
+                    except Exception:   # pylint: disable=broad-except
+                        pass
+        if self.targets:
+            self.loop.run_until_idle()
 
     # -- emitting side -------------------------------------------------
     def emit(self, kind, dt, units):
@@ -488,6 +499,10 @@ class Replay:
     # -- redirections --------------------------------------------------
     def redirect(self, dt):
         kind = self.target_kind or 'file'
+        if self.targets.get(dt):
+            # the target is being replaced: use another kind for the new one
+            kind = 'process' if self.targets[dt][-1]['kind'] == 'file' \
+                else 'file'
         if kind == 'stream' and self.close_sent:
             # asyncssh cannot attach a StreamWriter to a closed channel
             # (AssertionError in _StreamWriter.__init__); noted, not judged
@@ -523,20 +538,25 @@ class Replay:
             target = rec['sr'].writer
         else:
             raise ValueError(kind)
-        self.targets[dt] = rec
+        self.targets.setdefault(dt, []).append(rec)
 
         async def op2():
             if dt == 'err':
                 await self.proc.redirect_stderr(target)
             else:
                 await self.proc.redirect_stdout(target)
-        self.loop.run_until_complete(op2())
+        try:
+            self.loop.run_until_complete(op2())
+        except Exception as exc:        # pylint: disable=broad-except
+            # an observation: redirect*() itself failed
+            self.log.append(('redirect-error', dt, kind, repr(exc)[:120]))
+            self.desync = f'redirect_{dt} -> {kind} raised {exc!r}'
+            return
         self.log.append(('redirect', dt, kind))
 
-    def target_state(self, dt):
+    def target_state(self, rec):
         """-> (units that reached the target or None if unobservable,
                 eof seen or None)"""
-        rec = self.targets[dt]
         kind = rec['kind']
         if kind in ('file', 'name'):
             closed = rec['obj'].closed if 'obj' in rec else None
@@ -578,6 +598,9 @@ class Replay:
             self.divergences.append(f'step {step}: {self.desync}')
         if not self.machinery and not self.desync:
             self.finish()
+        elif self.targets:
+            self.loop.run_until_idle()
+            self.log_targets()
 
     def finish(self):
         """Closing phase (not predicted by the spec, judged by the monitor
@@ -612,9 +635,39 @@ class Replay:
                          {dt: (self.readers[dt].at_eof()
                                if dt in self.readers else None)
                           for dt in self.dts}))
+        self.log_targets()
+        self.compare_targets()
+
+    def compare_targets(self):
+        """conformance: what each successive target received, against the
+        specification's state at the end of the labels"""
+        if not self.pred_targets:
+            return
+        order = ['in'] if self.role == 'server' else ['out', 'err']
+        for i, (gens, data) in enumerate(self.pred_targets):
+            dt = order[i]
+            recs = self.targets.get(dt, [])
+            obs = [self.target_state(r)[0] for r in recs]
+            if not recs and not data and not gens:
+                continue
+            if any(o is None for o in obs):
+                continue
+            cum = []
+            tot = 0
+            for o in obs[:-1]:
+                tot += len(o)
+                cum.append(tot)
+            flat = [u for o in obs for u in o]
+            if cum != list(gens) or flat[:len(data)] != list(data):
+                self.divergences.append(
+                    f'targets of {dt}: observed {obs}, predicted data '
+                    f'{data} replaced at {gens}')
+
+    def log_targets(self):
         for dt in self.targets:
-            self.log.append(('target', dt, self.targets[dt]['kind'])
-                            + self.target_state(dt))
+            self.log.append(('target', dt,
+                             [(rec['kind'],) + self.target_state(rec)
+                              for rec in self.targets[dt]]))
 
 
 class _MemWriterTransport(asyncio.Transport):
@@ -725,7 +778,13 @@ def judge(rep):
             # once nothing is unread the stream has caught up again
             continue
         if ev[0] == 'redirect':
-            redirected[ev[1]] = pd[ev[1]]
+            redirected.setdefault(ev[1], pd[ev[1]])
+            continue
+        if ev[0] == 'redirect-error':
+            viol.append(('all-data-then-eof', ('redirect', ev[2]),
+                         f'redirect of {ev[1]} to {ev[2]} raised {ev[3]}',
+                         context(ev[1])))
+            redirected.setdefault(ev[1], pd[ev[1]])
             continue
         if ev[0] == 'end':
             end = ev
@@ -913,16 +972,26 @@ def judge(rep):
                 viol.append(('eof-report', None,
                              f'{dt}: at_eof() false after EOF and a full '
                              f'drain', context(dt)))
+    complete = end is not None      # the case ran to its end (EOF sent)
     for ev in targets:
-        _, dt, kind, got, eof = ev
+        _, dt, gens = ev
+        kinds = '+'.join(g[0] for g in gens)
+        # everything not consumed by a reader before the (first) redirection,
+        # in the order written, each unit once, over the successive targets
         want = sent_data[dt][redirected.get(dt, 0):]
-        if got is not None and got != want:
-            viol.append(('all-data-then-eof', ('redirect', kind),
-                         f'{dt} -> {kind}: target got {got}, source wrote '
-                         f'{want} after the redirection point', context(dt)))
-        if eof is not None and not eof:
-            viol.append(('all-data-then-eof', ('redirect', kind),
-                         f'{dt} -> {kind}: no EOF at the target',
+        if all(g[1] is not None for g in gens):
+            got = [u for g in gens for u in g[1]]
+            if got != (want if complete else want[:len(got)]) or \
+                    (not complete and len(got) > len(want)):
+                viol.append(('all-data-then-eof', ('redirect', kinds),
+                             f'{dt} -> {kinds}: target(s) got '
+                             f'{[g[1] for g in gens]}, the source wrote '
+                             f'{want} after the redirection point',
+                             context(dt)))
+        eof = gens[-1][2]
+        if complete and eof is not None and not eof:
+            viol.append(('all-data-then-eof', ('redirect', kinds),
+                         f'{dt} -> {kinds}: no EOF at the target',
                          context(dt)))
     return viol
 
